@@ -430,7 +430,7 @@ Definition swap_skel (k : skel) : skel :=
                    fk_dst := other (fk_dst (sk_file k)); fk_dst_mode := fk_dst_mode (sk_file k);
                    fk_body := fk_body (sk_file k) |};
      sk_dir := {| dk_mk := other (dk_mk (sk_dir k)); dk_list := other (dk_list (sk_dir k));
-                  dk_filter_on_name := dk_filter_on_name (sk_dir k);
+                  dk_guard := dk_guard (sk_dir k);
                   dk_src_join := other (dk_src_join (sk_dir k)); dk_dst_join := other (dk_dst_join (sk_dir k));
                   dk_ignore_invalid := dk_ignore_invalid (sk_dir k) |} |}.
 
@@ -444,76 +444,132 @@ Proof. destruct s, w; reflexivity. Qed.
 Lemma coherent_swap k : coherent (swap_skel k) = coherent k.
 Proof.
   unfold coherent, src_side, dst_side. cbn [swap_skel sk_top sk_file sk_dir tk_probe tk_dir_first tk_raise_unless_ignored
-    fk_src fk_src_mode fk_dst fk_dst_mode fk_body dk_mk dk_list dk_filter_on_name dk_src_join dk_dst_join dk_ignore_invalid].
+    fk_src fk_src_mode fk_dst fk_dst_mode fk_body dk_mk dk_list dk_guard dk_src_join dk_dst_join dk_ignore_invalid].
   now rewrite !side_eqb_other.
 Qed.
 
 (* any function family and its side-swapped twin do the same thing with the roles of the two sides exchanged *)
-Theorem transfer_swap k f chunk ign w :
-  transfer (swap_skel k) f chunk ign (swap w) = rmap swap (transfer k f chunk ign w).
+Theorem transfer_swap k flt chunk ign w :
+  transfer (swap_skel k) flt chunk ign (swap w) = rmap swap (transfer k flt chunk ign w).
 Proof.
   unfold transfer. rewrite coherent_swap. destruct (coherent k); [|reflexivity].
   change (src_side (swap_skel k)) with (other (src_side k)).
   change (dst_side (swap_skel k)) with (other (dst_side k)).
   change (fk_body (sk_file (swap_skel k))) with (fk_body (sk_file k)).
+  change (dk_guard (sk_dir (swap_skel k))) with (dk_guard (sk_dir k)).
   rewrite !get_other_swap. destruct (get (src_side k) w) as [src|].
-  - destruct (copy_node _ f chunk ign src (get (dst_side k) w)) as [d| | |]; cbn [bind rmap]; try reflexivity.
+  - destruct (copy_node _ _ chunk ign src (get (dst_side k) w)) as [d| | |]; cbn [bind rmap]; try reflexivity.
     now rewrite set_other_swap.
   - destruct ign; reflexivity.
 Qed.
 
-Lemma swap_std_skel s d : swap_skel (std_skel s d) = std_skel (other s) (other d).
+Lemma swap_std_skel g s d : swap_skel (std_skel g s d) = std_skel g (other s) (other d).
 Proof. reflexivity. Qed.
 
-Theorem download_upload_swap f chunk ign w : download f chunk ign (swap w) = rmap swap (upload f chunk ign w).
-Proof. exact (transfer_swap (std_skel Local Remote) f chunk ign w). Qed.
+Theorem download_upload_swap g flt chunk ign w :
+  download g flt chunk ign (swap w) = rmap swap (upload g flt chunk ign w).
+Proof. exact (transfer_swap (std_skel g Local Remote) flt chunk ign w). Qed.
+
+Lemma upload_unfold g flt chunk ign src dst :
+  upload g flt chunk ign {| at_local := Some src; at_remote := dst |} =
+  do d <- copy_node std_body (guard g flt) chunk ign src dst; Ok {| at_local := Some src; at_remote := d |}.
+Proof. destruct g; reflexivity. Qed.
 
 (* upload into a path where nothing exists *)
-Theorem upload_fresh f chunk ign t : 1 <= chunk -> wf_tree t = true -> t <> Special ->
-  upload f chunk ign {| at_local := Some t; at_remote := None |} =
-  Ok {| at_local := Some t; at_remote := Some (prune f t) |}.
+Theorem upload_fresh g flt chunk ign t : 1 <= chunk -> wf_tree t = true -> t <> Special ->
+  upload g flt chunk ign {| at_local := Some t; at_remote := None |} =
+  Ok {| at_local := Some t; at_remote := Some (prune (guard g flt) t) |}.
 Proof.
-  intros Hc HW HS. unfold upload, transfer. cbn [coherent std_skel src_side dst_side sk_top sk_file sk_dir tk_probe fk_dst get
-    at_local at_remote fk_body]. cbn -[copy_node std_body].
-  now rewrite (copy_node_fresh_top f chunk Hc ign t HW HS).
+  intros Hc HW HS. rewrite upload_unfold. now rewrite (copy_node_fresh_top (guard g flt) chunk Hc ign t HW HS).
 Qed.
 
-Theorem download_fresh f chunk ign t : 1 <= chunk -> wf_tree t = true -> t <> Special ->
-  download f chunk ign {| at_local := None; at_remote := Some t |} =
-  Ok {| at_local := Some (prune f t); at_remote := Some t |}.
+Theorem download_fresh g flt chunk ign t : 1 <= chunk -> wf_tree t = true -> t <> Special ->
+  download g flt chunk ign {| at_local := None; at_remote := Some t |} =
+  Ok {| at_local := Some (prune (guard g flt) t); at_remote := Some t |}.
 Proof.
   intros Hc HW HS.
   change {| at_local := None; at_remote := Some t |} with (swap {| at_local := Some t; at_remote := None |}).
-  rewrite download_upload_swap, (upload_fresh f chunk ign t Hc HW HS). reflexivity.
+  rewrite download_upload_swap, (upload_fresh g flt chunk ign t Hc HW HS). reflexivity.
 Qed.
 
 (* upload into whatever is at the remote path: the local side is not modified, the remote side is overlaid *)
-Theorem upload_existing f chunk ign t dst w' : 1 <= chunk -> wf_tree t = true ->
-  upload f chunk ign {| at_local := Some t; at_remote := dst |} = Ok w' ->
-  at_local w' = Some t /\ overlays (prune f t) dst (at_remote w').
+Theorem upload_existing g flt chunk ign t dst w' : 1 <= chunk -> wf_tree t = true ->
+  upload g flt chunk ign {| at_local := Some t; at_remote := dst |} = Ok w' ->
+  at_local w' = Some t /\ overlays (prune (guard g flt) t) dst (at_remote w').
 Proof.
-  intros Hc HW. unfold upload, transfer. cbn -[copy_node std_body].
-  destruct (copy_node std_body f chunk ign t dst) as [d| | |] eqn:E; cbn [bind]; try discriminate.
+  intros Hc HW. rewrite upload_unfold.
+  destruct (copy_node std_body (guard g flt) chunk ign t dst) as [d| | |] eqn:E; cbn [bind]; try discriminate.
   intros [= <-]. cbn [at_local at_remote]. split; [reflexivity|].
-  exact (copy_node_overlays f chunk Hc t HW ign dst d E).
+  exact (copy_node_overlays (guard g flt) chunk Hc t HW ign dst d E).
 Qed.
 
-Theorem download_existing f chunk ign t dst w' : 1 <= chunk -> wf_tree t = true ->
-  download f chunk ign {| at_local := dst; at_remote := Some t |} = Ok w' ->
-  at_remote w' = Some t /\ overlays (prune f t) dst (at_local w').
+Theorem download_existing g flt chunk ign t dst w' : 1 <= chunk -> wf_tree t = true ->
+  download g flt chunk ign {| at_local := dst; at_remote := Some t |} = Ok w' ->
+  at_remote w' = Some t /\ overlays (prune (guard g flt) t) dst (at_local w').
 Proof.
   intros Hc HW H.
   change {| at_local := dst; at_remote := Some t |} with (swap {| at_local := Some t; at_remote := dst |}) in H.
   rewrite download_upload_swap in H.
-  destruct (upload f chunk ign {| at_local := Some t; at_remote := dst |}) as [w1| | |] eqn:E; cbn [rmap] in H; try discriminate.
-  injection H as <-. destruct (upload_existing f chunk ign t dst w1 Hc HW E) as [H1 H2]. now destruct w1.
+  destruct (upload g flt chunk ign {| at_local := Some t; at_remote := dst |}) as [w1| | |] eqn:E; cbn [rmap] in H; try discriminate.
+  injection H as <-. destruct (upload_existing g flt chunk ign t dst w1 Hc HW E) as [H1 H2]. now destruct w1.
 Qed.
 
 (* something that is neither file nor directory, or nothing at all, at the top: ValueError unless ignore_invalid *)
-Theorem upload_invalid f chunk dst src : src = None \/ src = Some Special ->
-  upload f chunk false {| at_local := src; at_remote := dst |} = Raise ValueError /\
-  upload f chunk true {| at_local := src; at_remote := dst |} = Ok {| at_local := src; at_remote := dst |}.
-Proof. intros [-> | ->]; split; reflexivity. Qed.
+Theorem upload_invalid g flt chunk dst src : src = None \/ src = Some Special ->
+  upload g flt chunk false {| at_local := src; at_remote := dst |} = Raise ValueError /\
+  upload g flt chunk true {| at_local := src; at_remote := dst |} = Ok {| at_local := src; at_remote := dst |}.
+Proof. destruct g; intros [-> | ->]; split; reflexivity. Qed.
+
+(* ---- the guard and the filter the caller passed *)
+Lemma prune_ext f f' : (forall k, f k = f' k) -> forall t, prune f t = prune f' t.
+Proof.
+  intros E t. induction t as [d| |es IH] using node_ind'; try reflexivity.
+  cbn [prune]. f_equal. induction es as [|[k c] r IHr]; [reflexivity|].
+  inversion IH as [|? ? H1 H2]; subst. cbn [prune_entries]. cbn [snd] in H1.
+  rewrite <- E. destruct (f k); [|exact (IHr H2)]. rewrite (IHr H2). destruct c; try reflexivity; now rewrite H1.
+Qed.
+
+(* with the `is None` guard, or with any filter object that is true in a boolean context, the guard is the filter *)
+Lemma guard_wanted g flt : g = GIsNone \/ truthy_or_none flt = true -> forall k, guard g flt k = wanted flt k.
+Proof.
+  intros H k. destruct flt as [o|]; [|reflexivity]. cbn [guard wanted].
+  destruct g; [|reflexivity]. destruct H as [H|H]; [discriminate|]. cbn in H. now rewrite H.
+Qed.
+
+Theorem upload_fresh_wanted g flt chunk ign t : 1 <= chunk -> wf_tree t = true -> t <> Special ->
+  g = GIsNone \/ truthy_or_none flt = true ->
+  upload g flt chunk ign {| at_local := Some t; at_remote := None |} =
+  Ok {| at_local := Some t; at_remote := Some (prune (wanted flt) t) |}.
+Proof.
+  intros Hc HW HS Hg. rewrite (upload_fresh g flt chunk ign t Hc HW HS).
+  now rewrite (prune_ext _ _ (guard_wanted g flt Hg) t).
+Qed.
+
+Theorem download_fresh_wanted g flt chunk ign t : 1 <= chunk -> wf_tree t = true -> t <> Special ->
+  g = GIsNone \/ truthy_or_none flt = true ->
+  download g flt chunk ign {| at_local := None; at_remote := Some t |} =
+  Ok {| at_local := Some (prune (wanted flt) t); at_remote := Some t |}.
+Proof.
+  intros Hc HW HS Hg. rewrite (download_fresh g flt chunk ign t Hc HW HS).
+  now rewrite (prune_ext _ _ (guard_wanted g flt Hg) t).
+Qed.
+
+(* with the truthiness guard a filter object that is false in a boolean context is not consulted at all:
+   a predicate that rejects every name (e.g. an empty callable set of accepted names) lets everything through *)
+Definition falsy_reject_all : filter_obj := {| fo_truthy := false; fo_pred := fun _ => false |}.
+Theorem truthiness_guard_ignores_falsy_filter : forall chunk ign k data, 1 <= chunk ->
+  wanted (Some falsy_reject_all) k = false /\
+  upload GTruthy (Some falsy_reject_all) chunk ign {| at_local := Some (Dir [(k, File data)]); at_remote := None |}
+  = Ok {| at_local := Some (Dir [(k, File data)]); at_remote := Some (Dir [(k, File data)]) |} /\
+  download GTruthy (Some falsy_reject_all) chunk ign {| at_local := None; at_remote := Some (Dir [(k, File data)]) |}
+  = Ok {| at_local := Some (Dir [(k, File data)]); at_remote := Some (Dir [(k, File data)]) |}.
+Proof.
+  intros chunk ign k data Hc. split; [reflexivity|].
+  assert (HW : wf_tree (Dir [(k, File data)]) = true) by reflexivity.
+  assert (HS : Dir [(k, File data)] <> Special) by discriminate.
+  rewrite (upload_fresh GTruthy _ chunk ign _ Hc HW HS), (download_fresh GTruthy _ chunk ign _ Hc HW HS).
+  split; reflexivity.
+Qed.
 
 (* ================================================================== 7. when copying into an existing destination succeeds *)
 Section Compat.
@@ -599,9 +655,9 @@ Section Compat.
   Qed.
 End Compat.
 
-Theorem upload_existing_succeeds f chunk ign t dst : 1 <= chunk -> wf_tree t = true -> t <> Special ->
-  compat f t dst = true -> exists w', upload f chunk ign {| at_local := Some t; at_remote := dst |} = Ok w'.
+Theorem upload_existing_succeeds g flt chunk ign t dst : 1 <= chunk -> wf_tree t = true -> t <> Special ->
+  compat (guard g flt) t dst = true -> exists w', upload g flt chunk ign {| at_local := Some t; at_remote := dst |} = Ok w'.
 Proof.
-  intros Hc HW HS Hcp. unfold upload, transfer. cbn -[copy_node std_body].
-  destruct (copy_node_succeeds f chunk Hc t HW ign dst Hcp (or_intror HS)) as (r & ->). cbn [bind]. now eexists.
+  intros Hc HW HS Hcp. rewrite upload_unfold.
+  destruct (copy_node_succeeds (guard g flt) chunk Hc t HW ign dst Hcp (or_intror HS)) as (r & ->). cbn [bind]. now eexists.
 Qed.
